@@ -887,8 +887,6 @@ def _refresh_elementwise_output_shape(node: ir.Node) -> None:
     for iv in ins:
         if iv is None:
             continue
-        if _is_scalar_const_value(iv):
-            continue
         dims = _shape_dims_seq(iv.shape)
         if dims is None:
             continue
